@@ -9,7 +9,7 @@ CORR_MODULES = ["Entity.C37Corr"]
 PREFIX = "C37"
 CASE_TYPE = "ent_case"
 HARNESS = "entity"
-KNOWN = {1: "C37-publisher-presentation-mutable", 2: "C37-topic-create-inconsistent"}
+KNOWN = {1: "C37-publisher-presentation-mutable", 2: "C37-topic-create-inconsistent", 3: "C37-group-qos-not-announced"}
 RULE = ("one case = one scenario on the simulated stack: participants / publishers / subscribers / topics / writers / "
         "readers created with random QoS (entity_factory autoenable on or off at every level, so entities exist both "
         "enabled and not enabled), then 10-40 set_qos / get_qos / enable calls; a new QoS is the current one with one "
@@ -27,8 +27,11 @@ TRUSTED = ["theories/Entity/EntityModel.v is a hand transcription of qos.rs (is_
            "2.2.3 and are the oracle",
            "QoS values are exchanged with the harness as 21 / 6 / 2 integers; byte-vector policies (user/topic/group "
            "data) and the partition are represented by one-element values"]
-ASSUMPTIONS = ["'announced to remote participants' is NOT covered by this check (discovery data on a second participant "
-               "is not read); C13 covers the encoding of the announced QoS",
+ASSUMPTIONS = ["'announced to remote participants' is covered by the ORACLE only (the model does not predict discovery): after "
+               "the harness has let discovery settle, get_matched_publication_data / get_matched_subscription_data on "
+               "the other side must show the last accepted QoS of the writer / reader (and of its publisher / "
+               "subscriber: known finding C37-group-qos-not-announced); there is no Coq theorem about announcements, "
+               "C13 covers the encoding of the announced QoS and C15 the matching rules",
                "set_default_*_qos is not exercised: QosKind::Default stands for the constant default QoS of the kind",
                "negative Length::Limited values are outside the specification: model and code are compared on them, "
                "the oracle is silent",
@@ -77,6 +80,8 @@ def consistent_fix(r, d, kind):
             d["hist"] = r.choice([-1, d["mspi"], max(d["mspi"] - 1, 0)])
     elif d["ms"] != "u":
         d["ms"] = "u"
+    if d["hist"] == 0:
+        d["hist"] = -1            # KEEP_LAST(0) is inconsistent
     if kind == "R":
         if d["sep"] < 0 and d["dl"] >= 0:
             d["sep"] = 0
@@ -333,9 +338,46 @@ def systematic():
     return out
 
 
+def announce(r):
+    """two participants (or one), a writer and a reader on the same topic, compatible by construction; accepted
+    set_qos of mutable policies on the writer / reader / publisher / subscriber, the harness lets discovery settle,
+    then the OTHER side reads the discovered QoS of the endpoint"""
+    two = r.random() < 0.7
+    ops = ["keepnet", "P 0"] + (["P 0"] if two else []) + ["T 0 1"] + (["T 1 1"] if two else [])
+    ops += ["PUB 0 %s" % g_spec(dict(E.gq_default(), gd=r.choice([0, 2]))), "SUB %d def" % (1 if two else 0)]
+    w = dict(E.eq_default("W"), ud=r.choice([0, 5]), dl=r.choice([-1, 1000000000]), ls=r.choice([-1, 5000000000]),
+             str=r.choice([0, 3]))
+    rd = dict(E.eq_default("R"), ud=r.choice([0, 7]))
+    ops += ["W 0 0 %s" % eq_spec(w, "W"), "R 0 %d %s" % (1 if two else 0, eq_spec(rd, "R")), "settle", "mpd 0 0", "msd 0 0"]
+    for _ in range(r.randint(3, 8)):
+        k = r.random()
+        if k < 0.45:
+            f = r.choice(["ud", "dl", "ls", "str", "tp", "adu"])
+            w[f] = {"ud": r.choice([0, 1, 9, 200]), "dl": r.choice([-1, 1000000000, 5000000000]),
+                    "ls": r.choice([-1, 1000, 5000000000]), "str": r.choice([0, 1, -4, 2147483647]),
+                    "tp": r.choice([0, 5]), "adu": r.randint(0, 1)}[f]
+            ops.append("sq W 0 %s" % eq_spec(w, "W"))
+        elif k < 0.75:
+            f = r.choice(["ud", "sep", "apn", "lat"])
+            rd[f] = {"ud": r.choice([0, 2, 8]), "sep": r.choice([0, 5, 1000]), "apn": r.choice([-1, 1000]),
+                     "lat": r.choice([0, 9, 1000000000])}[f]
+            ops.append("sq R 0 %s" % eq_spec(rd, "R"))
+        elif k < 0.90:
+            # (the partition is left alone: changing it un-matches the endpoints, which is C15's business)
+            ops.append("sq PUB 0 %s" % g_spec(dict(E.gq_default(), gd=r.choice([0, 3, 9]))))
+        else:
+            ops.append("sq SUB 0 %s" % g_spec(dict(E.gq_default(), gd=r.choice([0, 3]))))
+        ops += ["settle", "mpd 0 0", "msd 0 0"]
+        if r.random() < 0.3:
+            ops += ["gq W 0", "gq R 0"]
+    return ops
+
+
 def gen(r, tier):
     n = {"quick": 220, "search": 800, "thorough": 3500}[tier]
     cases = systematic()
+    for _ in range({"quick": 24, "search": 60, "thorough": 300}[tier]):
+        cases.append(announce(r))
     while len(cases) < n:
         cases.append(scenario(r))
     return cases
@@ -347,6 +389,10 @@ def corpus():
         parse_line("P 0 ; PUB 0 ; sq PUB 0 sc=1 coh=1 ; gq PUB 0 ; SUB 0 ; sq SUB 0 sc=1 ; gq SUB 0 ; sq SUB 0 part=3 ; gq SUB 0"),
         # create_topic accepts an inconsistent QoS
         parse_line("P 0 ; T 0 1 hist=5 mspi=3 ; gq T 0 ; T 0 2 ms=1 mspi=5 ; gq T 1 ; sq T 0 hist=5 mspi=3"),
+        # discovered QoS follows the accepted QoS of the endpoint; the publisher's does not (known finding)
+        parse_line("keepnet ; P 0 ; P 0 ; T 0 1 ; T 1 1 ; PUB 0 ; SUB 1 ; W 0 0 ud=5 ; R 0 1 ud=7 ; settle ; mpd 0 0 ; msd 0 0 ; "
+                   "sq W 0 ud=9 dl=1000000000 str=4 ; settle ; mpd 0 0 ; sq R 0 ud=3 sep=5 ; settle ; msd 0 0 ; "
+                   "sq PUB 0 gd=3 part=4 ; settle ; mpd 0 0"),
         # before / after enable
         parse_line("FQ 0 ; P 0 ; PUB 0 ; T 0 1 ; W 0 0 ; sq W 0 hist=7 ; gq W 0 ; en W 0 ; sq W 0 hist=8 ; gq W 0 ; "
                    "sq W 0 hist=7 dl=5 ; gq W 0 ; sq T 0 hist=3 ; en P 0 ; sq T 0 hist=4 ; gq T 0"),
@@ -391,8 +437,9 @@ MANIFEST = {
              "the oracle on the implementation's results."),
     "note": ("Trusted: Coq kernel + vm_compute; hand model EntityModel.v (checked by the correspondence run); simulator "
              "harness; the spec predicates of C37Corr.v. Axioms: none. NOT covered: 'announced to remote participants' "
-             "(no second participant reads the discovered QoS; C13 covers the wire form), set_default_*_qos. Known "
-             "findings C37-publisher-presentation-mutable, C37-topic-create-inconsistent (patches in proposed_fixes/)."),
+             "is checked by the oracle on the implementation's discovered data only, not proved on the model; set_default_*_qos. Known "
+             "findings C37-publisher-presentation-mutable, C37-topic-create-inconsistent, C37-group-qos-not-announced "
+             "(patches in proposed_fixes/)."),
     "technique": "Coq proof (state-independent theorems about every set_qos / create path + equivalence of the code's "
                  "checks with the specification's rules) + differential correspondence on the simulated stack with a "
                  "last-accepted-QoS tracker oracle evaluated in Coq",
